@@ -6,6 +6,8 @@
 import Parsley.Model.Content
 import Parsley.Spec.Fig9
 import Parsley.Lemmas.Content
+import Parsley.Lemmas.ContentRel
+import Parsley.Lemmas.ContentLex
 namespace Parsley.C12
 open Parsley Parsley.Content Parsley.Fig9
 
@@ -85,32 +87,7 @@ example : (opinfo opBT).isSome ∧ step .page Fig9.BT = some .text ∧ step .tex
 
 /-! ## 2. the loop over a token sequence against the Figure-9 run over the syntax tree -/
 
-/-- pointwise relation of two lists (core has no `Forall₂`) -/
-inductive All2 {α β : Type} (R : α → β → Prop) : List α → List β → Prop where
-  | nil : All2 R [] []
-  | cons {a b l₁ l₂} : R a b → All2 R l₁ l₂ → All2 R (a :: l₁) (b :: l₂)
-
-/-- what the tokenizer yields for an atom (the numeric value of a number is irrelevant to
-    the extractor: only its being a number is used) -/
-def AtomObj : Atom → Obj → Prop
-  | .num _, o => isNumObj o = true
-  | .name b, o => o = .name b
-  | .lit c, o => o = .str c
-  | .hex sp, o => o = .str (hexBytes (sp.filter (fun b => !Fig9.isWs b)))
-  | .bool v, o => o = .bool v
-  | .null, o => o = .null
-
-def OperandObj : Operand → Obj → Prop
-  | .atom a, o => AtomObj a o
-  | .arr _ els, o => ∃ l, o = .arr l ∧ All2 (fun e x => AtomObj e.1 x) els l
-  | .dict _ _, o => ∃ l, o = .dict l
-
-/-- token sequence of a list of operator instances -/
-inductive InstsToks : List Inst → List CSObj → Prop where
-  | nil : InstsToks [] []
-  | cons {i : Inst} {rest : List Inst} {objs : List Obj} {ts : List CSObj} :
-      All2 (fun a o => OperandObj a.1 o) i.args objs → InstsToks rest ts →
-      InstsToks (i :: rest) (objs.map CSObj.val ++ CSObj.op i.op :: ts)
+/- `All2`, `AtomObj`, `OperandObj`, `InstsToks`: see Lemmas/ContentRel.lean -/
 
 def toRes : Option (List Tok) → Res (List Tok)
   | some ts => .ok ts
@@ -496,22 +473,18 @@ theorem runToks_insts {insts : List Inst} {toks : List CSObj} (h : InstsToks ins
 def Lexes (d : Nat) (p : Prog) : Prop :=
   ∃ toks, InstsToks p.insts toks ∧ LexAll d p.render toks
 
-/-
-  FULL STATEMENTS (what C12 asks for):
-    valid_walk_extracts : ∀ d ≥ 1, ∀ p, p.ok → expected p = some ts → extract d p.render = .ok ts
-    deviation_rejected  : ∀ d ≥ 1, ∀ p, p.ok → expected p = none    → extract d p.render = .err .guard
-  PROVED BELOW: the same with the hypothesis `Lexes d p` in place of `p.ok ∧ d ≥ 1`, i.e. everything
-  about the state diagram, the operator table, the compatibility counter, the operand checks of
-  Tj ' " TJ, the separator tokens, the loop-exit discipline, fuel and white space — for ALL trees.
-  MISSING: the lexer round trip `p.ok → d ≥ 1 → Lexes d p` (numbers, names, strings, arrays,
-  dictionaries are re-read as written).  It is exercised on every generated case by the
-  correspondence run (the judge checks `p.ok`, `p.render = stream` and compares the real
-  extractor's output with `expected p`).
--/
+/-- **lexer_roundtrip** (Lemmas/ContentLex.lean): for EVERY well-formed syntax tree (spelled numbers
+    up to 18+18 digits, names, nested/escaped literal strings, hex strings, keywords, arrays and
+    dictionaries of atoms, operators, arbitrary separators with comments) and every depth limit
+    `d ≥ 1` the tokenizer model (`CSObjP`, `parse_pdf_obj` with its `n g R` look-ahead, the array and
+    dictionary loops with their fuel `2*len+2`) re-reads the rendered bytes as exactly the tokens of
+    the tree. -/
+theorem lexer_roundtrip (d : Nat) (hd : 1 ≤ d) (p : Prog) (hp : p.ok = true) : Lexes d p := by
+  obtain ⟨d', rfl⟩ : ∃ d', d = d' + 1 := ⟨d - 1, by omega⟩
+  exact ContentLex.lexAll_prog d' p hp
 
-/-- **valid_walk_extracts** (modulo lexing): a stream whose operator sequence Figure 9 permits and
-    whose text-showing operands are well-formed yields exactly the spec's tokens -/
-theorem valid_walk_extracts_partial (d : Nat) (p : Prog) (hl : Lexes d p) (ts : List Tok)
+/-- the state-machine half: under the lexing hypothesis alone -/
+theorem valid_walk_extracts_of_lex (d : Nat) (p : Prog) (hl : Lexes d p) (ts : List Tok)
     (he : expected p = some ts) : extract d p.render = .ok ts := by
   obtain ⟨toks, h1, h2⟩ := hl
   rw [extract_of_lex h2, runToks_insts h1 .content 0]
@@ -519,10 +492,7 @@ theorem valid_walk_extracts_partial (d : Nat) (p : Prog) (hl : Lexes d p) (ts : 
   unfold expected at he
   rw [he]; rfl
 
-/-- **deviation_rejected** (modulo lexing): an operator in a state that does not permit it, an
-    unknown operator outside a compatibility section, or a text-showing operator with the wrong
-    number or kind of operands makes the whole extraction fail with an error -/
-theorem deviation_rejected_partial (d : Nat) (p : Prog) (hl : Lexes d p)
+theorem deviation_rejected_of_lex (d : Nat) (p : Prog) (hl : Lexes d p)
     (he : expected p = none) : extract d p.render = .err .guard := by
   obtain ⟨toks, h1, h2⟩ := hl
   rw [extract_of_lex h2, runToks_insts h1 .content 0]
@@ -530,14 +500,30 @@ theorem deviation_rejected_partial (d : Nat) (p : Prog) (hl : Lexes d p)
   unfold expected at he
   rw [he]; rfl
 
-/-- consequence: the extractor never panics on a stream that lexes to a syntax tree -/
-theorem extract_total_on_trees (d : Nat) (p : Prog) (hl : Lexes d p) :
+/-- **valid_walk_extracts**: for every well-formed content stream (any syntax tree `p`, rendered with
+    any separators) whose operator sequence Figure 9 permits and whose text-showing operands are
+    well-formed, the extractor (any `max_depth ≥ 1`) returns exactly the spec's tokens: the string
+    operands in order and byte for byte, with the documented separator tokens. -/
+theorem valid_walk_extracts (d : Nat) (hd : 1 ≤ d) (p : Prog) (hp : p.ok = true) (ts : List Tok)
+    (he : expected p = some ts) : extract d p.render = .ok ts :=
+  valid_walk_extracts_of_lex d p (lexer_roundtrip d hd p hp) ts he
+
+/-- **deviation_rejected**: an operator in a state that does not permit it, an unknown operator
+    outside a compatibility section, or a text-showing operator with the wrong number or kind of
+    operands makes the whole extraction fail with an error. -/
+theorem deviation_rejected (d : Nat) (hd : 1 ≤ d) (p : Prog) (hp : p.ok = true)
+    (he : expected p = none) : extract d p.render = .err .guard :=
+  deviation_rejected_of_lex d p (lexer_roundtrip d hd p hp) he
+
+/-- consequence: on every well-formed stream the extractor computes exactly the spec (and in
+    particular never panics and never runs out of fuel) -/
+theorem extract_total_on_trees (d : Nat) (hd : 1 ≤ d) (p : Prog) (hp : p.ok = true) :
     extract d p.render = toRes (expected p) := by
   cases he : expected p with
-  | none => exact deviation_rejected_partial d p hl he
-  | some ts => exact valid_walk_extracts_partial d p hl ts he
+  | none => exact deviation_rejected d hd p hp he
+  | some ts => exact valid_walk_extracts d hd p hp ts he
 
-/-! ### non-vacuity: concrete streams for which the lexing hypothesis is proved by evaluation -/
+/-! ### non-vacuity: concrete streams -/
 
 /-- `BT (a) Tj ET` -/
 def exOk : Prog :=
@@ -547,35 +533,37 @@ def exOk : Prog :=
 def exBad : Prog :=
   { lead := [], insts := [⟨[], Fig9.BT, [32]⟩, ⟨[], [113], [32]⟩, ⟨[], Fig9.ET, []⟩] }
 
-/-- evaluation of one tokenizer call on concrete bytes -/
-macro "lex_eval" : tactic => `(tactic|
-  simp [exOk, exBad, Prog.render, renderInsts, Inst.render, renderArgs, Operand.render, Atom.render,
-    Fig9.BT, Fig9.ET, Fig9.Tj, csObjP, skipWs, skipWsAux, Content.isWs, operatorP, isDelim, normHex,
-    validUtf8, litStringP, litLoop, Content.isDigit])
+/-- `% c\n BT /F1 12 Tf [(A\)) -120.5 <4 2> .5] TJ << /K (v) /N null >> DP 1 2 (x) " ET`:
+    comment, name, numbers with sign and fraction, escaped parenthesis, odd hex string with white
+    space, array, dictionary with a null entry, three-operand `"` -/
+def exRich : Prog :=
+  { lead := [37, 32, 99, 10, 32],
+    insts := [
+      ⟨[], Fig9.BT, [32]⟩,
+      ⟨[(.atom (.name [70, 49]), [32]), (.atom (.num [49, 50]), [32])], [84, 102], [10]⟩,
+      ⟨[(.arr [] [(.lit [65, 92, 41], [32]), (.num [45, 49, 50, 48, 46, 53], [32]),
+                  (.hex [52, 32, 50], [32]), (.num [46, 53], [9])], [32])], Fig9.TJ, [32]⟩,
+      ⟨[(.dict [32] [([75], [32], .lit [118], [32]), ([78], [32], .null, [32])], [32])], [68, 80], [32]⟩,
+      ⟨[(.atom (.num [49]), [32]), (.atom (.num [50]), [32]), (.atom (.lit [120]), [32])], Fig9.dquote, [32]⟩,
+      ⟨[], Fig9.ET, []⟩] }
 
-theorem exOk_lexes : Lexes 1 exOk := by
-  refine ⟨[.op Fig9.BT, .val (.str [97]), .op Fig9.Tj, .op Fig9.ET], ?_, ?_⟩
-  · exact .cons (objs := []) .nil (.cons (objs := [.str [97]]) (.cons rfl .nil) (.cons (objs := []) .nil .nil))
-  · refine .cons (r := [32, 40, 97, 41, 32, 84, 106, 32, 69, 84]) ⟨by decide, by decide, by lex_eval⟩ ?_
-    refine .cons (r := [32, 84, 106, 32, 69, 84]) ⟨by decide, by decide, by lex_eval⟩ ?_
-    refine .cons (r := [32, 69, 84]) ⟨by decide, by decide, by lex_eval⟩ ?_
-    refine .cons (r := []) ⟨by decide, by decide, by lex_eval⟩ ?_
-    exact .nil rfl
+theorem exOk_ok : exOk.ok = true := by decide +kernel
+theorem exBad_ok : exBad.ok = true := by decide +kernel
+theorem exRich_ok : exRich.ok = true := by decide +kernel
 
-theorem exBad_lexes : Lexes 1 exBad := by
-  refine ⟨[.op Fig9.BT, .op [113], .op Fig9.ET], ?_, ?_⟩
-  · exact .cons (objs := []) .nil (.cons (objs := []) .nil (.cons (objs := []) .nil .nil))
-  · refine .cons (r := [32, 113, 32, 69, 84]) ⟨by decide, by decide, by lex_eval⟩ ?_
-    refine .cons (r := [32, 69, 84]) ⟨by decide, by decide, by lex_eval⟩ ?_
-    refine .cons (r := []) ⟨by decide, by decide, by lex_eval⟩ ?_
-    exact .nil rfl
+/-- the hypotheses of `lexer_roundtrip` are satisfiable by a stream that uses every kind of token -/
+example : Lexes 1 exRich := lexer_roundtrip 1 (by omega) exRich exRich_ok
 
-/-- the hypotheses of `valid_walk_extracts_partial` are satisfiable and give the documented tokens -/
+/-- the hypotheses of `valid_walk_extracts` are satisfiable and give the documented tokens -/
 example : extract 1 exOk.render = .ok [.space, .raw [97], .space] :=
-  valid_walk_extracts_partial 1 exOk exOk_lexes _ (by decide +kernel)
+  valid_walk_extracts 1 (by omega) exOk exOk_ok _ (by decide +kernel)
 
-/-- the hypotheses of `deviation_rejected_partial` are satisfiable -/
+example : extract 1 exRich.render =
+    .ok [.space, .raw [65, 92, 41], .raw [0x42], .space, .raw [120], .space] :=
+  valid_walk_extracts 1 (by omega) exRich exRich_ok _ (by decide +kernel)
+
+/-- the hypotheses of `deviation_rejected` are satisfiable -/
 example : extract 1 exBad.render = .err .guard :=
-  deviation_rejected_partial 1 exBad exBad_lexes (by decide +kernel)
+  deviation_rejected 1 (by omega) exBad exBad_ok (by decide +kernel)
 
 end Parsley.C12
